@@ -280,3 +280,48 @@ def arg_origin_calls(fn, t, ai, table=None, through_agg=True):
     fields |= set(place_fields(op_place(a)))
     calls = set(x.what for x in atoms if x.kind == "call")
     return calls, atoms, fields
+
+
+def view_reach(fx, v, blocks):
+    """Callee names reached from the given blocks of a (possibly inlined) function body: the calls that sit in
+    those blocks plus everything the workspace functions / closures they invoke can reach."""
+    cg = callgraph(fx)
+    seen = {}
+    for bi in blocks:
+        b = v.blocks[bi]
+        if b.get("cleanup"):
+            continue
+        for s in b["stmts"]:
+            rv = s["rv"]
+            if rv["k"] == "agg" and rv.get("ak") == "closure":
+                pass
+        t = b["term"]
+        if t["k"] != "call":
+            continue
+        f = t.get("fn") or {}
+        if "indirect" in f:
+            continue
+        o, p = f.get("orig"), f.get("path")
+        starts = []
+        if p in fx.fns:
+            seen.setdefault(p, [v.path, p])
+            starts.append(p)
+        else:
+            seen.setdefault(o or p, [v.path, o or p])
+            for impl in _virtual_impls(fx, o):
+                starts.append(impl)
+        for fv in f.get("fnvals", []):
+            if fv in fx.fns:
+                starts.append(fv)
+        for st in starts:
+            seen.setdefault(st, [v.path, st])
+            for name, pth in cg.reach(st).items():
+                seen.setdefault(name, [v.path] + pth)
+    return seen
+
+
+def _virtual_impls(fx, trait_item):
+    if not trait_item or "::" not in trait_item:
+        return []
+    tr, meth = trait_item.rsplit("::", 1)
+    return [p for p in fx.fns if p.startswith("<") and p.endswith(" as %s>::%s" % (tr, meth))]
